@@ -6,7 +6,7 @@ for i in 01 02 03 04 05 06 07 08 09 10 11 12 13 14 15 16 17 18 19 20; do
   ( /verif/check C$i --tier $tier > $out/C$i.txt 2>&1; echo "C$i exit=$?" >> $out/C$i.txt ) &
 done
 wait
-grep -h "^/.*\[R\|BROKEN\|Traceback\|STALE" $out/*.txt | cut -c1-320
+grep -h "^/.*\[R\|BROKEN\|Traceback\|STALE-KNOWN" $out/*.txt | cut -c1-320
 echo "non-zero: $(grep -h 'exit=' $out/*.txt | grep -v 'exit=0' | tr '\n' ' ')"
 echo "known-finding lines: $(cat $out/*.txt | grep -c '^KNOWN-FINDING')"
 rm -rf "$out"
